@@ -7,7 +7,7 @@ import ast
 from .. import AnalysisError
 from .. import terms as T
 from ..evalr import Evaluator
-from ..model import walk_no_nested
+from ..model import dotted, walk_no_nested
 from ..mutants import M
 from .common import SELF, fold, loc_of, self_attr
 from .priorstate import MAYBE, SET, UNSET, PriorState
@@ -129,6 +129,64 @@ def run(ctx):
                "no code stores an instance attribute `log_likelihood` on a sampler object (the counting wrapper stays the only path to the user's likelihood)",
                (f"{shadows[0][0].ident} assigns `{shadows[0][2]}.log_likelihood`: on a sampler object that instance attribute shadows the counting wrapper method, so every later "
                 "evaluation through that sampler calls the raw callable and is never counted (nor preceded by the wrapper's bookkeeping)") if shadows else "", disc="shadow")
+    # ---- the counter is a Python side effect: it counts once per *trace* when the wrapper runs under a JAX transformation.  A callable that reaches the
+    #      wrapper (directly, through the sampler's log_prob methods, or through a kernel object built from such a callable) must not be executed by
+    #      jax.vmap / jit / pmap / lax.scan / lax.map / lax.fori_loop / lax.while_loop
+    TRACERS = {"vmap", "jit", "pmap", "scan", "map", "fori_loop", "while_loop", "filter_jit", "filter_vmap"}
+
+    def reaches_wrapper(cls_, name, depth=0, seen=None):
+        seen = seen or set()
+        if name in seen or depth > 4:
+            return False
+        seen.add(name)
+        if name == "log_likelihood":
+            return True
+        m_ = cls_.resolve(name)
+        if m_ is None or not m_.params:
+            return False
+        me_ = m_.params[0]
+        for n_ in ast.walk(m_.node):
+            if isinstance(n_, ast.Attribute) and isinstance(n_.value, ast.Name) and n_.value.id == me_:
+                if reaches_wrapper(cls_, n_.attr, depth + 1, seen):
+                    return True
+            if isinstance(n_, ast.Call) and isinstance(n_.func, ast.Attribute) and isinstance(n_.func.value, ast.Call) and getattr(n_.func.value.func, "id", None) == "super":
+                if n_.func.attr == "log_prob" and reaches_wrapper(cls_, "log_likelihood", depth + 1, seen):
+                    return True
+        return False
+    n_tr = 0
+    for c_ in repo.subclasses(base):
+        for m_ in c_.methods.values():
+            if not m_.params:
+                continue
+            me_ = m_.params[0]
+            tainted = set()
+            changed = True
+            stmts = [n_ for n_ in ast.walk(m_.node)]
+            while changed:
+                changed = False
+                for n_ in stmts:
+                    if isinstance(n_, ast.Assign) and len(n_.targets) == 1 and isinstance(n_.targets[0], ast.Name) and n_.targets[0].id not in tainted:
+                        refs = any((isinstance(x, ast.Attribute) and isinstance(x.value, ast.Name) and x.value.id == me_ and reaches_wrapper(c_, x.attr))
+                                   or (isinstance(x, ast.Name) and x.id in tainted) for x in ast.walk(n_.value))
+                        if refs:
+                            tainted.add(n_.targets[0].id)
+                            changed = True
+                    if isinstance(n_, (ast.FunctionDef, ast.Lambda)) and n_ is not m_.node:
+                        nm_ = getattr(n_, "name", None)
+                        if nm_ and nm_ not in tainted and any(isinstance(x, ast.Name) and x.id in tainted for x in ast.walk(n_)):
+                            tainted.add(nm_)
+                            changed = True
+            for n_ in stmts:
+                if isinstance(n_, ast.Call) and isinstance(n_.func, ast.Attribute) and n_.func.attr in TRACERS and "jax" in (dotted(n_.func) or "") + ast.unparse(n_.func.value):
+                    n_tr += 1
+                    hit = [a_ for a_ in n_.args if (isinstance(a_, ast.Name) and a_.id in tainted)
+                           or (isinstance(a_, ast.Attribute) and isinstance(a_.value, ast.Name) and a_.value.id == me_ and reaches_wrapper(c_, a_.attr))]
+                    if hit and m_.cls is c_:
+                        ctx.refute("C17.cnt", f"{c_.ident}.{m_.name}", loc_of(m_, n_),
+                                   f"`{ast.unparse(n_.func)}({ast.unparse(hit[0])[:30]}, ...)` executes, under JAX tracing, a callable that reaches the counting wrapper Sampler.log_likelihood: "
+                                   "the counter update is a Python side effect and runs once per trace, so n_likelihood_evaluations grows by 1 (or by the size of one traced batch) while the "
+                                   "kernel evaluates the likelihood for every particle and every step", disc=f"traced|{n_.func.attr}")
+    ctx.count("jax_transformations_in_samplers", n_tr)
     # ---- the two callables reach the sampler under their own names: through every constructor chain (sampler classes, the front end's
     #      keyword hand-over) a positional `log_likelihood` / `log_prior` lands in the parameter of the same name
     from .common import positional_name_mismatches
